@@ -55,7 +55,9 @@ fn main() {
                 println!("VIOLATION oracle={} sig={}\n  {}", v.oracle, v.sig, v.detail);
             }
             if r1.outcome_hash != r2.outcome_hash {
-                println!("MACHINERY-ERROR: two replays of the same schedule differ");
+                let _ = std::fs::write("/verif/.replay_a.txt", r1.trace.clone().unwrap_or_default());
+                let _ = std::fs::write("/verif/.replay_b.txt", r2.trace.clone().unwrap_or_default());
+                println!("MACHINERY-ERROR: two replays of the same schedule differ (traces in /verif/.replay_a.txt, /verif/.replay_b.txt)");
                 std::process::exit(2);
             }
             println!("replayed twice: identical observations; {} violation(s)", r1.violations.len());
